@@ -5,6 +5,7 @@ import Driver.Bg4
 import Driver.Shard
 import Driver.InterpSearch
 import Driver.Dedup
+import Driver.Singleflight
 open Xet.Drv
 
 def dispatch (blob : Blob) (line : String) : String :=
@@ -15,6 +16,7 @@ def dispatch (blob : Blob) (line : String) : String :=
     if cmd == "chunker" then handleChunker blob rest
     else if cmd.startsWith "hash" || cmd.startsWith "hex." then handleHash blob cmd rest
     else if cmd.startsWith "shard." then handleShard blob cmd rest
+    else if cmd.startsWith "sf." then handleSf blob cmd rest
     else if cmd.startsWith "dedup." then handleDedup blob cmd rest
     else if cmd.startsWith "search." then handleSearch blob cmd rest
     else if cmd.startsWith "bg4." then handleBg4 blob cmd rest
